@@ -11,6 +11,7 @@ import time
 import pickle
 import select
 import signal
+import threading
 
 mon = sys.monitoring
 TOOL = 4
@@ -54,6 +55,16 @@ class Explorer:
         self.occ_seen = {}
         self.occ_total = {}
         self.skipped = 0
+        self.b_in_thread = True    # B runs in a real second thread of the child (own thread-local storage, own thread identity) while A stays suspended
+
+    def _run_b(self):
+        if not self.b_in_thread:
+            return call_value(self.call_b)
+        box = []
+        t = threading.Thread(target=lambda: box.append(call_value(self.call_b)))
+        t.start()
+        t.join()
+        return box[0] if box else ('exc', 'the second thread ended without a value')
 
     def count_sites(self, call_a):
         """dynamic occurrence count of every line site of A, measured in a forked child so that this process keeps its (cold) state"""
@@ -121,7 +132,7 @@ class Explorer:
             if self.abort_exc is not None:
                 self.child_b = ('aborted', site)
                 raise self.abort_exc(f'injected at {site[0]}:{site[2]}')      # propagates into A at exactly this point
-            self.child_b = call_value(self.call_b)
+            self.child_b = self._run_b()
             return None
         os.close(w)
         self.pending.append((pid, r, k, site, time.time()))
